@@ -415,6 +415,41 @@ func c11apply(cs c11Case, it *c11item, p *c11parts) [][]byte {
 		m.PartialFlagPerResult = append(m.PartialFlagPerResult, true, false)
 	case "partialFlags/missing":
 		p.msg.(*pb.ScanResponse).PartialFlagPerResult = nil
+	case "excIndex/zero", "excIndex/missing", "excIndex/outOfRange", "excIndex/hole", "excIndex/duplicate", "excIndex/serverFatalClass",
+		"excIndexLast/zero", "excIndexLast/missing", "excIndexLast/outOfRange", "excIndexLast/hole", "excIndexLast/duplicate", "excIndexLast/serverFatalClass":
+		mr := p.msg.(*pb.MultiResponse)
+		var rar *pb.RegionActionResult
+		for _, x := range mr.RegionActionResult {
+			if len(x.ResultOrException) >= 2 {
+				rar = x
+			}
+		}
+		if rar == nil {
+			rar = mr.RegionActionResult[0]
+		}
+		pos, other := 0, len(rar.ResultOrException)-1
+		if cs.Field == "excIndexLast" {
+			pos, other = other, 0
+		}
+		roe := rar.ResultOrException[pos]
+		roe.Result = nil
+		class := "org.apache.hadoop.hbase.DoNotRetryIOException"
+		switch cs.Op {
+		case "zero":
+			roe.Index = proto.Uint32(0)
+		case "missing":
+			roe.Index = nil
+		case "outOfRange":
+			roe.Index = proto.Uint32(7)
+		case "hole":
+			roe.Index = proto.Uint32(2)
+		case "duplicate":
+			roe.Index = rar.ResultOrException[other].Index
+		case "serverFatalClass":
+			class = "org.apache.hadoop.hbase.regionserver.RegionServerStoppedException"
+		}
+		roe.Exception = &pb.NameBytesPair{Name: proto.String(class), Value: []byte("x")}
+		p.cells = c11multiCells(it, mr)
 	case "index/zero":
 		p.msg.(*pb.MultiResponse).RegionActionResult[0].ResultOrException[0].Index = proto.Uint32(0)
 	case "index/outOfRange":
